@@ -40,6 +40,10 @@ func (l *verifC16Link) Send(r *pb.SyncResponse) error {
 	select {
 	case l.ch <- r:
 		l.sent = append(l.sent, r)
+		if r.GetCode() == pb.SyncResponse_META && r.GetMeta().GetAof() && verifC16Leader != nil {
+			// the leader's source delivers one more chunk while this transfer is running
+			verifC16Leader.fire()
+		}
 		return nil
 	case <-l.gone:
 		return errors.New("rpc error: transport is closing")
@@ -130,6 +134,43 @@ func (i *verifC16Input) SetChannel(ch Channel)                  {}
 func (i *verifC16Input) StateNotify(SyncState) usync.WaitChannel { return nil }
 func (i *verifC16Input) RunIds() []string                       { return i.ids }
 
+// verifC16LiveSrc: the leader's source connection: the initial chunks, then (once the first log
+// transfer to a follower has been announced) one more chunk, then the connection ends.
+type verifC16LiveSrc struct {
+	chunks  [][]byte
+	i       int
+	extra   []byte
+	drained chan struct{}
+	trigger chan struct{}
+	fired   bool
+	state   int
+}
+
+func (s *verifC16LiveSrc) Read(p []byte) (int, error) {
+	if s.i < len(s.chunks) {
+		n := copy(p, s.chunks[s.i])
+		s.i++
+		return n, nil
+	}
+	switch s.state {
+	case 0:
+		s.state = 1
+		close(s.drained)
+		<-s.trigger
+		return copy(p, s.extra), nil
+	}
+	return 0, io.EOF
+}
+
+func (s *verifC16LiveSrc) fire() {
+	if !s.fired {
+		s.fired = true
+		close(s.trigger)
+	}
+}
+
+var verifC16Leader *verifC16LiveSrc
+
 // verifC16Fill writes a log [base, base+len) into a cache through its real writer (which ends).
 func verifC16Fill(mc *MemoryChannel, base int64, chunks [][]byte) {
 	if len(chunks) == 0 {
@@ -168,6 +209,7 @@ func verifC16ReadAll(mc *MemoryChannel, runId string, x int64) ([]byte, bool, bo
 // under the leader's id.
 func VerifC16Sync() {
 	verifC16Sleeps, verifC16MaxSleeps = 0, verifParam("BACKOFFS", 2)
+	verifC16Leader = nil
 	L := int64(verifParam("LOGSIZE", 2))
 	C := verifParam("CHUNKMAX", 2)
 	lbase := int64(100)
@@ -205,7 +247,12 @@ func VerifC16Sync() {
 			chunks = append(chunks, stream[i:i+k])
 			i += k
 		}
-		verifC16Fill(lc, lbase+int64(cachedFrom), chunks)
+		src := &verifC16LiveSrc{chunks: chunks, extra: stream[n : n+1], drained: make(chan struct{}), trigger: make(chan struct{})}
+		verifC16Leader = src
+		w, werr := lc.NewAofWritter(src, lbase+int64(cachedFrom))
+		verifAssert(werr == nil, "C16.setup-aof-writer")
+		w.Start()
+		<-src.drained
 	}
 	leaderRight := lbase + int64(n)
 	if leaderState == 1 {
@@ -264,7 +311,10 @@ func VerifC16Sync() {
 	verifC16Cli = cli
 	err := rf.Run()
 	wait.Close(nil)
-	verifObserve("calls", int64(len(cli.links)))
+	if verifC16Leader != nil {
+		verifC16Leader.fire()
+	}
+	// (the number of calls depends on how the leader's late chunk races with the transfer: not observed)
 
 	// ---- what the follower holds now ----
 	sameHistoryAhead := fstate == 2
